@@ -7,7 +7,9 @@
 #include <fcntl.h>
 #include <signal.h>
 #include <spawn.h>
+#include <sys/stat.h>
 #include <sys/types.h>
+#include <time.h>
 #include <sys/wait.h>
 #include <unistd.h>
 
@@ -21,6 +23,14 @@ pid_t __real_waitpid(pid_t, int *, int);
 int __real_kill(pid_t, int);
 int __real_unlink(const char *);
 int __real_access(const char *, int);
+int __real_lstat(const char *, struct stat *);
+int __real_stat(const char *, struct stat *);
+char *__real_getenv(const char *);
+int __real_nanosleep(const struct timespec *, struct timespec *);
+int __real_usleep(useconds_t);
+unsigned __real_sleep(unsigned);
+int __real_clock_nanosleep(clockid_t, int, const struct timespec *, struct timespec *);
+int __real_posix_spawn(pid_t *, const char *, const posix_spawn_file_actions_t *, const posix_spawnattr_t *, char *const[], char *const[]);
 void __real__exit(int) __attribute__((noreturn));
 int __real_sigprocmask(int, const sigset_t *, sigset_t *);
 int __real_pthread_sigmask(int, const sigset_t *, sigset_t *);
@@ -40,6 +50,7 @@ namespace cfgsrc {
 }
 
 namespace sa {
+static bool is_tmp(const std::string &s) { return !s.empty() && s[0] == '\x01'; }
 
 const Config &config() {
 	static Config c;
@@ -176,6 +187,11 @@ struct Kernel {
 	bool sigchld_ign = false;      // SIGCHLD disposition of the driver
 	uint64_t sigign = 0;           // other signals the driver ignores (inherited or set by itself); children inherit them
 	bool tty_wait = false;         // some tool is blocked reading a terminal that stays open
+	std::map<std::string, std::string> symlinks;  // name -> target (one level)
+	std::map<std::string, std::string> symlink_of;  // target -> the name that pointed to it at the start
+	int exec_lookup(const std::string &path);
+	int path_search(const std::string &file, int &err);
+	const std::string &resolve(const std::string &p) { auto it = symlinks.find(p); return it == symlinks.end() ? p : it->second; }
 
 	void logf(const char *fmt, ...) {
 		char buf[2048];
@@ -212,7 +228,7 @@ struct Kernel {
 	int fault(const char *call) {
 		int idx = callcount[call]++;
 		for (auto &f : sc->faults)
-			if (f.call == call && f.index == idx) {
+			if (f.call == call && (f.index == idx || (f.persistent && f.index < idx))) {
 				fire(std::string("fault:") + call);
 				logf("  fault %s#%d -> errno %d", call, idx, f.err);
 				return f.err ? f.err : EIO;
@@ -307,6 +323,7 @@ void Kernel::start_tool(Proc &p) {
 		return;
 	}
 	if (have_o) {
+		outp = resolve(outp);
 		auto it = paths.find(outp);
 		int ino;
 		if (it == paths.end()) {
@@ -326,7 +343,7 @@ void Kernel::start_tool(Proc &p) {
 	if (p.kind == LINK) {
 		std::vector<Content> objs;
 		for (auto &o : pos) {
-			auto it = paths.find(o);
+			auto it = paths.find(resolve(o));
 			if (it == paths.end() || !inodes[it->second].complete) {
 				logf("  link: object %s %s", o.c_str(), it == paths.end() ? "missing" : "incomplete");
 				die(p, 1 << 8, true, false, "object missing or incomplete");
@@ -343,7 +360,7 @@ void Kernel::start_tool(Proc &p) {
 	}
 	if (pos.size() > 1) { die(p, 1 << 8, true, false, "more than one input operand"); return; }
 	if (pos.size() == 1) {
-		auto it = paths.find(pos[0]);
+		auto it = paths.find(resolve(pos[0]));
 		if (it == paths.end() || !inodes[it->second].complete) { die(p, 1 << 8, true, false, "input file missing"); return; }
 		p.in_src = 1;
 		p.in_inode = it->second;
@@ -582,8 +599,55 @@ int __wrap_posix_spawn_file_actions_destroy(posix_spawn_file_actions_t *fa) {
 	return 0;
 }
 
+}  // extern "C"
+
+// which tool a path names: its stage, -2 for a directory (an earlier PATH entry holding a directory of that name), -1 for nothing
+int Kernel::exec_lookup(const std::string &path) {
+	const Config &cfg = config();
+	auto missing = [&](const std::string &t) { for (auto &m : sc->missing_tools) if (m == t) return true; return false; };
+	std::string self_qbe = (sc->readlink_fail ? sc->argv[0] : std::string("/sim/bin/cproc")) + "-qbe";
+	if (path == self_qbe && path.find('/') != std::string::npos) return missing(path) ? -1 : COMPILE;
+	for (int s = 0; s < NSTAGE; s++) {
+		if (s == COMPILE || cfg.cmd[s].empty()) continue;
+		const std::string &t = cfg.cmd[s][0];
+		if (t.find('/') != std::string::npos) { if (path == t) return missing(t) ? -1 : s; continue; }
+		if (path == "/sim/tools/" + t) return missing(t) ? -1 : s;
+		if (path == "/sim/decoy/" + t) for (auto &d : sc->path_decoys) if (d == t) return -2;
+	}
+	if (self_qbe.find('/') == std::string::npos && path == "/sim/tools/" + self_qbe) return missing(self_qbe) ? -1 : COMPILE;
+	return -1;
+}
+
+// posix_spawnp's search: PATH is /sim/decoy:/sim/tools; a directory entry that cannot be executed (EACCES) is skipped and remembered
+int Kernel::path_search(const std::string &file, int &err) {
+	err = 0;
+	if (file.find('/') != std::string::npos) {
+		int k = exec_lookup(file);
+		if (k == -2) { err = EACCES; fire("natural:directory_executed"); return -1; }
+		if (k < 0) err = ENOENT;
+		return k;
+	}
+	bool eacces = false;
+	if (!sc->path_decoys.empty() && exec_lookup("/sim/decoy/" + file) == -2) { eacces = true; probe("path_search_skipped_a_directory"); }
+	int k = exec_lookup("/sim/tools/" + file);
+	if (k >= 0) return k;
+	err = eacces ? EACCES : ENOENT;
+	return -1;
+}
+
+extern "C" {
+
+static int do_spawn(pid_t *pidp, const char *file, const posix_spawn_file_actions_t *fa, const posix_spawnattr_t *attr, char *const argv[], bool search);
 int __wrap_posix_spawnp(pid_t *pidp, const char *file, const posix_spawn_file_actions_t *fa, const posix_spawnattr_t *attr, char *const argv[], char *const envp[]) {
 	(void)envp;
+	if (!IN_DRIVER) return EINVAL;
+	return do_spawn(pidp, file, fa, attr, argv, true);
+}
+int __wrap_posix_spawn(pid_t *pidp, const char *file, const posix_spawn_file_actions_t *fa, const posix_spawnattr_t *attr, char *const argv[], char *const envp[]) {
+	if (!IN_DRIVER) return __real_posix_spawn(pidp, file, fa, attr, argv, envp);
+	return do_spawn(pidp, file, fa, attr, argv, false);
+}
+static int do_spawn(pid_t *pidp, const char *file, const posix_spawn_file_actions_t *fa, const posix_spawnattr_t *attr, char *const argv[], bool search) {
 	K->enter("spawn");
 	std::vector<std::string> av;
 	for (int i = 0; argv && argv[i] && i < 4096; i++) av.push_back(argv[i]);
@@ -591,18 +655,20 @@ int __wrap_posix_spawnp(pid_t *pidp, const char *file, const posix_spawn_file_ac
 	for (auto &a : av) { cmdline += ' '; cmdline += a; }
 	const Config &cfg = config();
 	std::string f = file ? file : "";
-	int kind = -1;
-	std::string self_qbe = (K->sc->readlink_fail ? K->sc->argv[0] : std::string("/sim/bin/cproc")) + "-qbe";
-	for (int s = 0; s < NSTAGE; s++) {
-		if (s == COMPILE) { if (f == self_qbe) kind = s; }
-		else if (!cfg.cmd[s].empty() && f == cfg.cmd[s][0]) kind = s;
-	}
+	(void)cfg;
+	int lookup_err = 0;
+	int kind = search ? K->path_search(f, lookup_err) : K->path_search(f.find('/') == std::string::npos ? "./" + f : f, lookup_err);
 	SpawnEvent ev;
 	ev.pid = 0; ev.kind = kind; ev.occ = kind >= 0 ? K->kind_occ[kind] : 0; ev.step = K->step; ev.group = -1;
 	ev.argv = av; ev.in_kind = ev.out_kind = FD_NONE; ev.in_pipe = ev.out_pipe = -1; ev.ok = false; ev.err = 0;
 	int err = K->fault("spawn");
-	if (!err && kind < 0) { err = ENOENT; K->fire("natural:unknown tool"); }
-	if (!err) for (auto &m : K->sc->missing_tools) if (m == f) { err = ENOENT; K->fire("fault:tool_missing"); }
+	if (!err && kind < 0) {
+		err = lookup_err ? lookup_err : ENOENT;
+		bool miss = false;
+		std::string base = f.substr(f.rfind('/') == std::string::npos ? 0 : f.rfind('/') + 1);
+		for (auto &m : K->sc->missing_tools) if (m == f || m == base) miss = true;
+		K->fire(miss ? "fault:tool_missing" : "natural:unknown tool");
+	}
 	// build the child's descriptor table
 	std::map<int, FdEnt> fds;
 	Proc &d = K->driver();
@@ -839,6 +905,11 @@ int __wrap_mkstemp(char *tmpl) {
 int __wrap_unlink(const char *path) {
 	if (!IN_DRIVER) return __real_unlink(path);
 	K->enter("unlink");
+	{
+		// unlink removes the name it is given: a symbolic link itself, never what it points to
+		auto sl = K->symlinks.find(path);
+		if (sl != K->symlinks.end()) { K->symlinks.erase(sl); K->logf("[%d] unlink(%s) (symbolic link)", K->step, path); return 0; }
+	}
 	auto it = K->paths.find(path);
 	if (it == K->paths.end()) { errno = ENOENT; K->logf("[%d] unlink(%s) ENOENT", K->step, path); return -1; }
 	K->paths.erase(it);
@@ -850,12 +921,42 @@ int __wrap_access(const char *path, int mode) {
 	if (!IN_DRIVER) return __real_access(path, mode);
 	K->enter("access");
 	(void)mode;
-	bool ex = K->paths.count(path) != 0;
+	bool ex = K->paths.count(K->resolve(path)) != 0 || K->exec_lookup(path) >= 0 || K->exec_lookup(path) == -2;
 	K->logf("[%d] access(%s) -> %s", K->step, path, ex ? "0" : "ENOENT");
 	if (ex) return 0;
 	errno = ENOENT;
 	return -1;
 }
+
+static int sim_stat(const char *path, struct stat *st, bool follow) {
+	K->enter(follow ? "stat" : "lstat");
+	memset(st, 0, sizeof *st);
+	std::string p = path;
+	if (!follow && K->symlinks.count(p)) { st->st_mode = S_IFLNK | 0777; st->st_size = (off_t)K->symlinks[p].size(); st->st_nlink = 1; return 0; }
+	auto it = K->paths.find(K->resolve(p));
+	if (it != K->paths.end()) { st->st_mode = S_IFREG | 0644; st->st_size = (off_t)K->inodes[it->second].data.size(); st->st_nlink = 1; st->st_ino = (ino_t)(it->second + 2); return 0; }
+	int k = K->exec_lookup(p);
+	if (k == -2) { st->st_mode = S_IFDIR | 0755; st->st_nlink = 2; return 0; }
+	if (k >= 0) { st->st_mode = S_IFREG | 0755; st->st_nlink = 1; return 0; }
+	errno = ENOENT;
+	return -1;
+}
+int __wrap_lstat(const char *path, struct stat *st) { return IN_DRIVER ? sim_stat(path, st, false) : __real_lstat(path, st); }
+int __wrap_stat(const char *path, struct stat *st) { return IN_DRIVER ? sim_stat(path, st, true) : __real_stat(path, st); }
+
+char *__wrap_getenv(const char *name) {
+	if (!IN_DRIVER) return __real_getenv(name);
+	// the environment the driver is started in: PATH with the tools' directory, preceded by a directory of decoys when the scenario has any
+	static std::string path;
+	if (strcmp(name, "PATH") == 0) { path = K->sc->path_decoys.empty() ? "/sim/tools" : "/sim/decoy:/sim/tools"; K->probe("driver_read_PATH"); return &path[0]; }
+	return nullptr;
+}
+
+// sleeping is a scheduling point and costs simulated time; nothing else
+int __wrap_nanosleep(const struct timespec *a, struct timespec *b) { if (!IN_DRIVER) return __real_nanosleep(a, b); K->enter("sleep"); K->probe("driver_slept"); return 0; }
+int __wrap_clock_nanosleep(clockid_t c, int fl, const struct timespec *a, struct timespec *b) { if (!IN_DRIVER) return __real_clock_nanosleep(c, fl, a, b); K->enter("sleep"); K->probe("driver_slept"); return 0; }
+int __wrap_usleep(useconds_t u) { if (!IN_DRIVER) return __real_usleep(u); K->enter("sleep"); K->probe("driver_slept"); return 0; }
+unsigned __wrap_sleep(unsigned u) { if (!IN_DRIVER) return __real_sleep(u); K->enter("sleep"); K->probe("driver_slept"); return 0; }
 
 ssize_t __wrap_readlink(const char *path, char *buf, size_t size) {
 	if (!IN_DRIVER) return __real_readlink(path, buf, size);
@@ -932,7 +1033,6 @@ static std::string join(const std::vector<std::string> &v) {
 	return s;
 }
 
-static bool is_tmp(const std::string &s) { return !s.empty() && s[0] == '\x01'; }
 
 // open known findings (KNOWN_FINDINGS.txt) are passed in by the runner; a
 // finding that is not listed there is reported as an ordinary violation
@@ -969,6 +1069,27 @@ RunResult simulate(const Scenario &sc) {
 		K->inodes[ino].complete = true;
 		K->paths[f.first] = ino;
 	}
+	if (sc.output_symlink) {
+		// every output name the command line implies exists beforehand as a symbolic link to a file elsewhere
+		Expect ex0 = model(cfg, sc.argv, !sc.readlink_fail);
+		std::vector<std::string> outs;
+		if (!ex0.usage) {
+			for (auto &a : ex0.arts) if (!a.path.empty() && !is_tmp(a.path)) outs.push_back(a.path);
+			if (ex0.link) outs.push_back(ex0.link_out);
+		}
+		for (auto &o : outs) {
+			bool is_input = false;
+			for (auto &f : sc.files) if (f.first == o) is_input = true;
+			if (is_input || K->symlinks.count(o)) continue;
+			std::string target = "elsewhere/" + std::to_string(K->symlinks.size()) + ".out";
+			K->symlinks[o] = target;
+			K->symlink_of[target] = o;
+			int ino = (int)K->inodes.size();
+			K->inodes.emplace_back();
+			K->inodes[ino].complete = true;  // an older build's result
+			K->paths[target] = ino;
+		}
+	}
 	if (sc.stray_exit_step >= 0) {
 		Proc s;
 		s.pid = sc.pid_base - 1;
@@ -1003,6 +1124,28 @@ RunResult simulate(const Scenario &sc) {
 	}
 	K->in_driver = false;
 
+	// "cannot be started" means it never was: a failed attempt that the driver repeated with success (a retry after
+	// EAGAIN) is not a failure of the stage, and the attempt is not one of the spawns the model counts
+	{
+		std::vector<SpawnEvent> kept;
+		int first_real_failure = -1;
+		for (size_t i = 0; i < K->spawns.size(); i++) {
+			const SpawnEvent &e = K->spawns[i];
+			bool superseded = false;
+			if (!e.ok) for (size_t k = i + 1; k < K->spawns.size(); k++) if (K->spawns[k].ok && K->spawns[k].kind == e.kind && K->spawns[k].occ == e.occ && K->spawns[k].argv == e.argv) superseded = true;
+			if (superseded) { K->probe("failed_spawn_repeated_with_success"); continue; }
+			if (!e.ok && first_real_failure < 0) first_real_failure = e.step;
+			kept.push_back(e);
+		}
+		if (kept.size() != K->spawns.size()) {
+			K->spawns.swap(kept);
+			// the first failure is now the first one that stayed a failure (a tool's death or an attempt never repeated)
+			int fs = first_real_failure;
+			for (size_t i = 1; i < K->procs.size(); i++) if (!K->procs[i].stray && K->procs[i].failed && K->procs[i].death_step >= 0 && (fs < 0 || K->procs[i].death_step < fs)) fs = K->procs[i].death_step;
+			K->first_failure_step = fs;
+		}
+	}
+
 	RunResult res;
 	res.status = K->exit_status;
 	res.hang = K->hang;
@@ -1033,6 +1176,7 @@ RunResult simulate(const Scenario &sc) {
 	for (auto &f : K->fired) if (f == "fault:pipe" || f == "fault:fcntl" || f == "fault:fa_init" || f == "fault:fa_adddup2") pipeline_failure = true;
 	bool any_failure = any_tool_failure || pipeline_failure || link_failure;
 
+	for (auto &f : K->fired) if (f == "natural:directory_executed") { viol("C17/tool-not-found-through-PATH", "the driver tried to execute a directory that an earlier PATH entry holds under the tool's name; posix_spawnp skips it and finds the tool"); break; }
 	if (K->hang && K->tty_wait && !any_failure && !K->failure_seen_by_driver) {
 		// a tool is waiting for somebody to type on a terminal that stays open and nothing has failed: the driver
 		// waits with it, rightly, for as long as it takes - not a hang, and nothing further to judge in this run
@@ -1143,7 +1287,8 @@ RunResult simulate(const Scenario &sc) {
 				else if (is_tmp(a.path)) produced[a.path] = c;
 				else {
 					expected_paths.insert(a.path);
-					auto it = K->paths.find(a.path);
+					expected_paths.insert(K->resolve(a.path));
+					auto it = K->paths.find(K->resolve(a.path));
 					if (it == K->paths.end()) viol("C17/output-missing", "expected output " + a.path + " does not exist");
 					else if (!K->inodes[it->second].complete || K->inodes[it->second].data != c)
 						viol("C17/dataflow", "content of " + a.path + " is not the stages' transforms applied in pipeline order");
@@ -1161,7 +1306,8 @@ RunResult simulate(const Scenario &sc) {
 					}
 				}
 				expected_paths.insert(ex.link_out);
-				auto it = K->paths.find(ex.link_out);
+				expected_paths.insert(K->resolve(ex.link_out));
+				auto it = K->paths.find(K->resolve(ex.link_out));
 				if (it == K->paths.end()) viol("C17/output-missing", "expected executable " + ex.link_out + " does not exist");
 				else if (okc && (!K->inodes[it->second].complete || K->inodes[it->second].data != link_transform(objs)))
 					viol("C17/dataflow", "content of " + ex.link_out + " is not link(objects in command-line order)");
@@ -1172,6 +1318,7 @@ RunResult simulate(const Scenario &sc) {
 				bool initial = false;
 				for (auto &f : sc.files) if (f.first == kv.first) initial = true;
 				bool mk = K->inodes[kv.second].by_mkstemp;
+				if (K->symlink_of.count(kv.first)) initial = true;  // what an output name pointed to before the run
 				if (!initial && !mk && !expected_paths.count(kv.first)) viol("C17/unexpected-file", "file " + kv.first + " was created but the model names no such output");
 				if (initial && K->inodes[kv.second].data != initial_content(kv.first, 0) ) {
 					// an input was overwritten?
@@ -1205,8 +1352,12 @@ RunResult simulate(const Scenario &sc) {
 				for (auto &kv : K->paths) {
 					Inode &in = K->inodes[kv.second];
 					Proc *c = K->find(in.creator);
-					if (c && c != &K->driver() && failed_groups.count(c->group) && !in.by_mkstemp)
-						viol("C18/I3 output-left", "output " + kv.first + " of the failed pipeline still exists");
+					if (c && c != &K->driver() && failed_groups.count(c->group) && !in.by_mkstemp) {
+						// an output written through a symbolic link: what has to go is the name the driver was given
+						auto so = K->symlink_of.find(kv.first);
+						if (so != K->symlink_of.end() && !K->symlinks.count(so->second)) continue;
+						viol("C18/I3 output-left", "output " + (so != K->symlink_of.end() ? so->second + " -> " : std::string()) + kv.first + " of the failed pipeline still exists");
+					}
 				}
 			}
 		}
